@@ -13,6 +13,8 @@ package main
 
 import (
 	"fmt"
+	"os"
+	"runtime/pprof"
 	"sort"
 	"strconv"
 	"strings"
@@ -1009,6 +1011,12 @@ func runTask(r *ev.Run, t task, st *stats, routes map[string]struct{}) {
 
 func main() {
 	gx.Quiet()
+	if pf := os.Getenv("C01_PPROF"); pf != "" {
+		f, _ := os.Create(pf)
+		pprof.StartCPUProfile(f)
+		defer pprof.StopCPUProfile()
+		go func() { time.Sleep(40 * time.Second); pprof.StopCPUProfile(); os.Exit(3) }()
+	}
 	time.Local = time.UTC // unix-timestamp keys of the calendar rules are interpreted in the local zone
 	r := ev.Start("C01", "exploration")
 	r.Assume("reference = three-valued evaluation (planrig.Eval) of the WHERE/ON conditions on the AST produced by Gaea's own parser; column and literal types are equal (int/int, string/string), strings are lower-case ASCII or 'YYYY-MM-DD[ hh:mm:ss]'")
